@@ -37,9 +37,10 @@ Definition wk_step (t : fid -> wk) (e : op * obs) : fid -> wk :=
     | _ => t
     end in
   fun g =>
-    match wk_last (t1 g) with
-    | Some w => mkWk (Some w) (wk_woken (t1 g) || existsb (N.eqb (nN w)) (o_wake ob))
-    | None => t1 g
+    let x := t1 g in
+    match wk_last x with
+    | Some w => mkWk (Some w) (wk_woken x || existsb (N.eqb (nN w)) (o_wake ob))
+    | None => x
     end.
 
 Definition wk_track (tr : list (op * obs)) : fid -> wk :=
@@ -59,3 +60,73 @@ Definition arr_step (l : list fid) (e : op * obs) : list fid :=
   end.
 
 Definition arrivals (tr : list (op * obs)) : list fid := fold_left arr_step tr [].
+
+(* ------------------------------------------------------------------------------------ *)
+(* boolean monitors over an observed trace, used to search the implementation's own traces
+   for a failing input when a proof or the correspondence of C02-C04 breaks.  They restate
+   the theorems of Properties/C02-C04.v on the trackers above. *)
+Definition res_is (c : N) (ob : obs) : bool := N.eqb (hd 99%N (o_res ob)) c.
+Definition probe_locked (ob : obs) : bool := negb (N.eqb (nth 0 (o_probe ob) 0%N) 0).
+Definition probe_guards (ob : obs) : N := nth 1 (o_probe ob) 0%N.
+
+Record mmon := mkMmon { mm_wk : fid -> wk; mm_arr : list fid; mm_guards : N; mm_good : bool }.
+
+(* C02: at most one guard; a grant only while no guard is alive; is_locked exact *)
+Definition mon02_step (m : mmon) (e : op * obs) : mmon :=
+  let '(o, ob) := e in
+  let grant := match o with
+               | Poll _ _ => res_is R_READY ob
+               | TryLock => res_is R_SOME ob
+               | _ => false end in
+  let g' := if grant then (mm_guards m + 1)%N
+            else match o with DropGuard => N.pred (mm_guards m) | _ => mm_guards m end in
+  let ok := (negb grant || N.eqb (mm_guards m) 0) && N.leb g' 1
+            && Bool.eqb (probe_locked ob) (N.eqb g' 1) && N.eqb (probe_guards ob) g'
+            && match o with IsLocked => res_is (Rbool (N.eqb g' 1)) ob | _ => true end in
+  mkMmon (mm_wk m) (mm_arr m) g' (mm_good m && ok).
+
+(* C03: free and somebody pending => a pending future (fair: the oldest) holds a wake-up *)
+Definition mon03_step (is_fair : bool) (m : mmon) (e : op * obs) : mmon :=
+  let wk' := wk_step (mm_wk m) e in
+  let arr' := arr_step (mm_arr m) e in
+  let ok :=
+    probe_locked (snd e) ||
+    match olast arr' with
+    | None => true
+    | Some oldest =>
+        if is_fair then wk_woken (wk' oldest) else existsb (fun f => wk_woken (wk' f)) arr'
+    end in
+  mkMmon wk' arr' (mm_guards m) (mm_good m && ok).
+
+(* C04 (fair): grants in arrival order *)
+Definition mon04_step (m : mmon) (e : op * obs) : mmon :=
+  let '(o, ob) := e in
+  let ok :=
+    match o with
+    | Poll f _ => if res_is R_READY ob
+                  then match olast (mm_arr m) with None => true | Some g => Nat.eqb g f end
+                  else true
+    | TryLock => if res_is R_SOME ob then match mm_arr m with [] => true | _ => false end else true
+    | _ => true
+    end in
+  mkMmon (mm_wk m) (arr_step (mm_arr m) e) (mm_guards m) (mm_good m && ok).
+
+Definition mmon0 : mmon := mkMmon (fun _ => mkWk None false) [] 0 true.
+
+Definition dec_trace (tr : list (list N * obs)) : list (op * obs) :=
+  flat_map (fun e => match decode (fst e) with Some o => [(o, snd e)] | None => [] end) tr.
+
+Definition monitor (which : N) (cfg : list N) (tr : list (list N * obs)) : bool :=
+  match cfg with
+  | [_; b] =>
+      let is_fair := negb (N.eqb b 0) in
+      match which with
+      | 2%N => mm_good (fold_left mon02_step (dec_trace tr) mmon0)
+      | 3%N => mm_good (fold_left (mon03_step is_fair) (dec_trace tr) mmon0)
+      | 4%N => if is_fair then mm_good (fold_left mon04_step (dec_trace tr) mmon0) else true
+      | _ => true
+      end
+  | _ => true
+  end.
+
+Definition machine : Base.machine := mkMachine state minit mstep enabled (fun s => s) monitor.
